@@ -200,3 +200,28 @@ def fit(name, opts, desc, aseed=0, extra=None, sig='fit', expect=(), cache=True)
       _FIT_CACHE.clear()
     _FIT_CACHE[key] = out
   return out
+
+
+# ----------------------------------------------------------------------------- model strategy
+from hypothesis import strategies as _st  # noqa: E402
+
+
+@_st.composite
+def model_desc(draw, name, dmin=2, dmax=6, grid=False, fixed_opts=None, extra=None, scales=True):
+  """A fitted-model descriptor: {est, desc, opts, aseed, extra} (all JSON-able)."""
+  desc = draw(gen.dataset_desc(dmin=dmin, dmax=dmax, grid=grid, scales=scales))
+  d, nc = desc['d'], len(desc['sizes'])
+  space = option_space(name, d, nc)
+  opts = {}
+  for k in sorted(space):
+    opts[k] = draw(_st.sampled_from(space[k]))
+  if fixed_opts:
+    opts.update(fixed_opts)
+  if not valid_options(name, opts, d, nc):
+    opts['init'] = 'auto'
+  return dict(est=name, desc=desc, opts=opts, aseed=draw(_st.integers(0, 999)), extra=extra or {})
+
+
+def fit_model(m, sig='fit', expect=(), cache=True):
+  return fit(m['est'], m['opts'], m['desc'], m['aseed'], m.get('extra') or None, sig=sig,
+             expect=expect, cache=cache)
